@@ -260,6 +260,15 @@ def _drive(ctx, fs, kind, cap, ops, keytype):
                             twin[kk] = vv
                         r3 = run("==", lambda: c == twin)
                         ctx.need(r3 is True, "%s/==/unequal-to-cache-with-same-content" % name, lambda: "cache == other cache with the same items is %r" % (r3,))
+                        # a mapping of the same size in which one key is replaced by another one (same value) is a different
+                        # mapping - also when the value is None; asked of the twin, so that the use counts of `c` stay as modelled
+                        victim = next((kk for kk, vv in d.items() if vv is None), next(iter(d)))
+                        swapped = {("foreign", "key") if kk is victim else kk: vv for kk, vv in d.items()}
+                        swapped.setdefault(("foreign", "key"), d[victim])
+                        if len(swapped) == len(d):
+                            r4 = run("==", lambda: (twin == swapped, swapped == twin, twin != swapped))
+                            ctx.need(r4 == (False, False, True), "%s/==/equal-to-dict-with-another-key" % name,
+                                     lambda: "content %r vs %r: (==, reflected ==, !=) = %r" % (d, swapped, r4))
                 if op in ("values", "items", "eq"):
                     if n >= 2:
                         ctx.label("view-op>=2")
